@@ -37,6 +37,8 @@ func leanTy(t gty) string {
 		return "UInt64"
 	case "u32", "f32":
 		return "UInt32"
+	case "u8":
+		return "UInt8"
 	case "i32":
 		return "Int32"
 	case "i64":
@@ -62,6 +64,8 @@ func goTy(e ast.Expr) gty {
 		return "u64"
 	case "uint32":
 		return "u32"
+	case "byte", "uint8":
+		return "u8"
 	case "int32":
 		return "i32"
 	case "int64", "int":
@@ -1122,6 +1126,15 @@ func emitTranslated(p *pkgInfo) (out string, err error) {
 		b.WriteString(t.impFunction(fn, isigs))
 		b.WriteString("\n")
 	}
+	b.WriteString("/-! ### engine.go: the bytes of a fuzz input as 64-bit words (`checkFuzz`) -/\n\n")
+	b.WriteString(t.impFragment("checkFuzz", "checkFuzz_words", func(i int, s ast.Stmt) bool {
+		if ds, ok := s.(*ast.DeclStmt); ok {
+			return strings.Contains(exprText(p.fset, ds.Decl.(*ast.GenDecl).Specs[0].(*ast.ValueSpec).Names[0]), "buf")
+		}
+		_, isFor := s.(*ast.ForStmt)
+		return isFor
+	}, [][2]string{{"input", "[]u8"}}, "buf", "[]u64", "the statements that turn `input` into the buffer `buf` of the bit stream"))
+	b.WriteString("\n")
 	b.WriteString("end Rapid.Translated\n")
 	return b.String(), nil
 }
